@@ -104,6 +104,11 @@ RouteAmbiguous(cfg, node, meth, s) ==
 (* URL mapper.  node.keys = << [key, ar, t] >> (t = template: sequence of  *)
 (* [l |-> bytes] / [p |-> index]); node.mname / node.mt = name and         *)
 (* template (one parameter) under which the node is mounted in its parent. *)
+(* Key resolution ("/abs", "..", children) and URL composition follow the  *)
+(* MAPPER hierarchy node.mparent (built by url_mapper::mount), which need   *)
+(* not coincide with the dispatcher tree (node.parent / opts[i].child) nor  *)
+(* with the application hierarchy built by add()/attach(); the top of the  *)
+(* mapper hierarchy prepends its own root string node.mroot.               *)
 (* A key is given as [abs, comps]: "/a/b/k", "../k", "./k", "k".           *)
 (***************************************************************************)
 \* template items: [l |-> bytes] literal, [p |-> n] positional parameter, [h |-> name] named helper value;
@@ -120,7 +125,7 @@ FillH(t, params, hv) ==
           ELSE HelperVal(hv, t[1].h)) \o FillH(Tail(t), params, hv)
 Fill(t, params) == FillH(t, params, <<>>)
 
-ChildrenNamed(cfg, node, name) == { c \in 1..Len(cfg) : cfg[c].parent = node /\ cfg[c].mname = name }
+ChildrenNamed(cfg, node, name) == { c \in 1..Len(cfg) : cfg[c].mparent = node /\ cfg[c].mname = name }
 NoKey == [ok |-> FALSE, node |-> 0, key |-> ""]
 
 RECURSIVE Walk(_, _, _, _)
@@ -129,21 +134,21 @@ Walk(cfg, node, comps, i) ==
         ch == ChildrenNamed(cfg, node, c)
     IN IF i = Len(comps)
        THEN IF c = "." THEN [ok |-> TRUE, node |-> node, key |-> ""]
-            ELSE IF c = ".." THEN (IF cfg[node].parent = 0 THEN NoKey ELSE [ok |-> TRUE, node |-> cfg[node].parent, key |-> ""])
+            ELSE IF c = ".." THEN (IF cfg[node].mparent = 0 THEN NoKey ELSE [ok |-> TRUE, node |-> cfg[node].mparent, key |-> ""])
             ELSE IF ch # {} THEN [ok |-> TRUE, node |-> CHOOSE x \in ch : TRUE, key |-> ""]
             ELSE [ok |-> TRUE, node |-> node, key |-> c]
        ELSE IF c = "." THEN Walk(cfg, node, comps, i + 1)
-            ELSE IF c = ".." THEN (IF cfg[node].parent = 0 THEN NoKey ELSE Walk(cfg, cfg[node].parent, comps, i + 1))
+            ELSE IF c = ".." THEN (IF cfg[node].mparent = 0 THEN NoKey ELSE Walk(cfg, cfg[node].mparent, comps, i + 1))
             ELSE IF ch # {} THEN Walk(cfg, CHOOSE x \in ch : TRUE, comps, i + 1)
             ELSE NoKey
 
 RECURSIVE RootOf(_, _)
-RootOf(cfg, node) == IF cfg[node].parent = 0 THEN node ELSE RootOf(cfg, cfg[node].parent)
+RootOf(cfg, node) == IF cfg[node].mparent = 0 THEN node ELSE RootOf(cfg, cfg[node].mparent)      \* top of the MAPPER hierarchy
 
 RECURSIVE Climb(_, _, _)
 Climb(cfg, node, url) ==
-    IF cfg[node].parent = 0 THEN url
-    ELSE Climb(cfg, cfg[node].parent, Fill(cfg[node].mt, <<url>>))
+    IF cfg[node].mparent = 0 THEN url
+    ELSE Climb(cfg, cfg[node].mparent, Fill(cfg[node].mt, <<url>>))
 
 NoUrl == [ok |-> FALSE, url |-> <<>>, node |-> 0, key |-> ""]
 
